@@ -225,9 +225,105 @@ def mutated_oracle(ctx):
     return oracle
 
 
+# ------------------------------------------------------------------ (D) preprocessed documents whose macros move columns
+PP_NAMES = ["loop_counter", "n", "total_mass_of_everything", "k2", "acc"]
+
+
+@st.composite
+def pp_doc_st(draw):
+    """A small .F90 unit in which object-like and function-like macros stand for declarations, type names, identifiers
+    and expressions, so that a name / column of the expanded text has no (or another) place in the source text."""
+    names = list(draw(st.permutations(PP_NAMES)))
+    a, b, c, d = names[:4]
+    defs, spec, body = [], [], []
+    unit = draw(st.sampled_from(["program", "module", "subroutine"]))
+    forms = draw(st.lists(st.sampled_from(["decl", "typename", "longident", "shortident", "funlike", "value", "two-on-a-line", "cond"]), min_size=2, max_size=6, unique=True))
+    if "decl" in forms:
+        defs.append(f"#define DECLARE_IT integer :: {a}")
+        spec.append(draw(st.sampled_from(["DECLARE_IT", "  DECLARE_IT", "      DECLARE_IT  ! declares"])))
+        body.append(f"{a} = {a} + 1")
+        body.append(f"print *, {a}")
+    else:
+        spec.append(f"integer :: {a}")
+    if "typename" in forms:
+        defs.append("#define MYREAL real(kind=selected_real_kind(15, 307))")
+        spec.append(f"MYREAL :: {b}")
+        body.append(f"{b} = 2 * {b}")
+    else:
+        spec.append(f"real :: {b}")
+    if "longident" in forms:
+        defs.append(f"#define V a_very_long_replacement_identifier_for_{c}")
+        spec.append("integer :: V")
+        body.append("V = V + 1; V = 2")
+    if "shortident" in forms:
+        defs.append(f"#define A_LONG_MACRO_NAME_FOR_SOMETHING_SHORT {d}")
+        spec.append("integer :: A_LONG_MACRO_NAME_FOR_SOMETHING_SHORT")
+        body.append(f"{d} = A_LONG_MACRO_NAME_FOR_SOMETHING_SHORT + {d}")
+    if "funlike" in forms:
+        defs.append("#define SQUARE(x) ((x) * (x) + 0 * (x))")
+        body.append(f"{a} = SQUARE({a}) + {a}")
+        body.append(f"{b} = SQUARE({b} + 1.0) - {b}")
+    if "value" in forms:
+        defs.append("#define NVAL 12345678")
+        spec.append(f"integer, parameter :: npar = NVAL")
+        body.append(f"{a} = NVAL + npar")
+    if "two-on-a-line" in forms:
+        defs.append(f"#define P {a}")
+        defs.append(f"#define Q {b}")
+        body.append(f"Q = P + Q * P")
+    if "cond" in forms:
+        defs.append("#define HAVE_IT 1")
+        spec += ["#ifdef HAVE_IT", f"integer :: cond_{a}", "#else", f"real :: cond_{a}", "#endif"]
+        body.append(f"cond_{a} = {a}")
+    defs = list(draw(st.permutations(defs)))
+    body = list(draw(st.permutations(body)))
+    ind = draw(st.sampled_from(["", "  ", "    "]))
+    lines = defs + [f"{unit} ppu"] + ([ind + "implicit none"]) + [l if l.startswith("#") else ind + l for l in spec]
+    if unit == "module":
+        lines += ["contains", ind + "subroutine work()"] + [l if l.startswith("#") else ind * 2 + l for l in body] + [ind + "end subroutine work"]
+    else:
+        lines += [l if l.startswith("#") else ind + l for l in body]
+    lines.append(f"end {unit} ppu")
+    return {"text": "\n".join(lines) + "\n", "forms": sorted(forms), "suffix": draw(st.sampled_from([".F90", ".F90", ".F"]))}
+
+
+def pp_oracle(ctx):
+    def oracle(case):
+        text = case["text"]
+        if case["suffix"] == ".F":
+            # fixed form: statements from column 7, directives in column 1
+            text = "\n".join(l if l.startswith("#") else "      " + l.strip() for l in text.split("\n")[:-1]) + "\n"
+        name = "ppdoc" + case["suffix"]
+        root = os.path.join(ctx.scratch, "c09_pp")
+        setup_workspace(root, {name: text})
+        srv = Server(root=root, argv=ARGV)
+        out = list(open_all(srv, root, [name]))
+        path = os.path.join(root, name)
+        f = srv.file(path)
+        if f is None:
+            return out
+        lines = list(f.contents_split)
+        for fm in case["forms"]:
+            ctx.event("pp-doc-form:" + fm)
+
+        def record(discs, p, method):
+            for d in discs:
+                d.detail = {"method": method, "line": p[0], "character": p[1]}
+            out.extend(discs)
+
+        probe_document(ctx, srv, path, all_positions(lines), record, heavy_every=3, dochash=text)
+        return out
+
+    return oracle
+
+
 def run(ctx):
     part_corpus(ctx)
     part_intrinsics(ctx)
+    ctx.hyp(pp_doc_st(), pp_oracle(ctx), max_examples=ctx.n(12, 200), collect=True, label="pp-docs",
+            case_of=lambda c: {"files": {"ppdoc" + c["suffix"]: c["text"] if c["suffix"] != ".F" else
+                                         "\n".join(l if l.startswith("#") else "      " + l.strip() for l in c["text"].split("\n")[:-1]) + "\n"},
+                               "target": "ppdoc" + c["suffix"], "all_positions": True})
 
     def case_of(c):
         text = textmut.resolve_case(c)[:6000]
